@@ -496,8 +496,12 @@ class TokenizerModel:
             "emit": "self.tokenQueue.append({'type': tokenTypes['Characters'], 'data': data})" in src,
             "to-data": "self.state = self.dataState" in src,
         }
+        # the EOF exit is judged by C03.3 (a missing one is a violation: tokenization never ends); anything else
+        # missing means the recogniser does not understand the state
+        self.cdata_eof_exit = facts.pop("eof") or any(
+            isinstance(n, ast.If) and "EOF" in norm(n.test) and any(isinstance(x, ast.Break) for x in n.body) for n in ast.walk(m.node))
         bad = [k for k, v in facts.items() if not v]
-        if bad:
+        if bad and not (bad == ["terminator"] and "data[-1][-2:] == ']]'" in src):
             raise AnalysisError("cdataSectionState is not the recognised idiom (missing: %s)" % bad)
         self.irregular[sname] = "cdata-section"
         self.idiom_hits["cdata-section"] = 1
